@@ -212,7 +212,13 @@ func run(c *Case, only string) (*outcome, *vkit.Violation, error) {
 		who := cred.CN // the name permission decisions must use for a caller with a certificate from the authority
 		var md []string
 		if s.Spoof {
-			md = []string{"client-name", "alice", "x-client-name", "alice", "x-forwarded-for", "10.1.2.3", "x-real-ip", "10.1.2.3", "x-forwarded-client-cert", "Subject=\"CN=alice\""}
+			claimed := "10.1.2.3"
+			for _, ip := range c.AdminIPs {
+				if ip != "127.0.0.1" {
+					claimed = ip // claim to come from an address that is on the administrator list
+				}
+			}
+			md = []string{"client-name", "alice", "x-client-name", "alice", "x-forwarded-for", claimed, "x-real-ip", claimed, "x-forwarded-client-cert", "Subject=\"CN=alice\""}
 		}
 		if !trusted {
 			o.foreign++
@@ -222,7 +228,11 @@ func run(c *Case, only string) (*outcome, *vkit.Violation, error) {
 		for _, ai := range s.Accs {
 			// indices past the fixture's accounts address accounts created through the daemon, once there are any
 			var a *vkit.AccountInfo
-			if nb := len(world.Accounts); ai >= nb && len(dyn) > 0 {
+			if nb := len(world.Accounts); ai < 0 && len(dyn) > 0 {
+				a = dyn[len(dyn)-1] // the account created most recently through the daemon
+			} else if ai < 0 {
+				a = world.Accounts[0]
+			} else if ai >= nb && len(dyn) > 0 {
 				a = dyn[(ai-nb)%len(dyn)]
 			} else {
 				a = world.Accounts[ai%nb]
@@ -606,7 +616,7 @@ func genPerms(t *rapid.T) map[string]map[string][]string {
 }
 
 func genCase(t *rapid.T) *Case {
-	c := &Case{AdminIPs: rapid.SampledFrom([][]string{{}, {"127.0.0.1"}, {"10.1.2.3"}, {"10.1.2.3", "127.0.0.1"}, {"127.0.0.11"}}).Draw(t, "admin_ips"), Perms: genPerms(t), RelStorage: rapid.IntRange(0, 2).Draw(t, "rel_storage") == 0}
+	c := &Case{AdminIPs: rapid.SampledFrom([][]string{{}, {"127.0.0.1"}, {"10.1.2.3"}, {"10.1.2.3"}, {"10.1.2.3", "127.0.0.1"}, {"127.0.0.11"}, {"192.168.7.7", "127.0.0.2"}}).Draw(t, "admin_ips"), Perms: genPerms(t), RelStorage: rapid.IntRange(0, 2).Draw(t, "rel_storage") == 0}
 	type fl struct{ src, tgt, slot int64 }
 	floors := map[int]*fl{}
 	floor := func(k int) *fl {
@@ -617,6 +627,7 @@ func genCase(t *rapid.T) *Case {
 		return floors[k]
 	}
 	n := rapid.IntRange(3, 12).Draw(t, "nsteps")
+	var lastDuty *Step
 	for i := 0; i < n; i++ {
 		k := rapid.IntRange(0, 99).Draw(t, "kind")
 		s := Step{Client: rapid.SampledFrom(clientsAll).Draw(t, "client"), ByKey: rapid.Bool().Draw(t, "bykey"), Root: rapid.IntRange(0, 2).Draw(t, "root"), Dom: "own", Spoof: rapid.IntRange(0, 3).Draw(t, "spoof") == 0}
@@ -629,20 +640,20 @@ func genCase(t *rapid.T) *Case {
 			s.Kind = "attests"
 			s.Accs = rapid.Permutation([]int{0, 1, 2, 3, 4, 5}).Draw(t, "accs")[:rapid.IntRange(2, 5).Draw(t, "nacc")]
 			f = floor(s.Accs[0])
-		case k < 62:
+		case k < 60:
 			s.Kind, s.Accs = "propose", []int{acc}
-		case k < 74:
+		case k < 70:
 			s.Kind, s.Accs = "sign", []int{acc}
-		case k < 79:
+		case k < 75:
 			s.Kind = "multisign"
 			s.Accs = rapid.Permutation([]int{0, 1, 2, 3, 4, 5}).Draw(t, "accs")[:rapid.IntRange(2, 5).Draw(t, "nacc")]
 		case k < 84:
-			s.Kind, s.Accs = rapid.SampledFrom([]string{"lock", "unlock", "create", "create"}).Draw(t, "manage"), []int{acc}
+			s.Kind, s.Accs = rapid.SampledFrom([]string{"lock", "unlock", "create", "create", "create"}).Draw(t, "manage"), []int{acc}
 		case k < 92:
 			s.Kind = "list"
 		case k < 94:
 			s.Kind = "burst"
-		case k < 98:
+		case k < 99:
 			s.Kind = "restart-kill"
 		default:
 			s.Kind = "restart-term"
@@ -681,8 +692,30 @@ func genCase(t *rapid.T) *Case {
 			}
 		case "sign", "multisign":
 			s.Dom = rapid.SampledFrom([]string{"generic", "generic", "attester", "proposer", "exit", "exit"}).Draw(t, "dom")
+			if s.Dom == "exit" && rapid.Bool().Draw(t, "exit_spoof") {
+				s.Spoof = true
+			}
 		}
 		c.Steps = append(c.Steps, s)
+		if s.Kind == "attest" || s.Kind == "attests" || s.Kind == "propose" {
+			cp := s
+			lastDuty = &cp
+		}
+		if (s.Kind == "restart-kill" || s.Kind == "restart-term") && lastDuty != nil && rapid.IntRange(0, 3).Draw(t, "conflict_after_restart") > 0 {
+			// straight after the restart: the last duty again, with other content (refused if it was signed before)
+			u := *lastDuty
+			u.Root = (u.Root + 1) % 3
+			u.Dom, u.Spoof = "own", false
+			c.Steps = append(c.Steps, u)
+		}
+		if s.Kind == "create" && rapid.IntRange(0, 3).Draw(t, "use_created") > 0 {
+			// straight away, a duty for the account just created (if the creation was refused this addresses account 0)
+			u := Step{Kind: rapid.SampledFrom([]string{"attest", "propose", "attests"}).Draw(t, "use_kind"), Client: s.Client, Accs: []int{-1}, Src: 0, Tgt: 1, Slot: 1, Dom: "own"}
+			if u.Kind == "attests" {
+				u.Accs = []int{-1, 1, 4}
+			}
+			c.Steps = append(c.Steps, u)
+		}
 	}
 
 	return c
